@@ -87,7 +87,20 @@ def switch_table(f, sw=None):
                 default = oc
             else:
                 table[int(v)] = oc
-    # statements after the switch are the fall-out of a breaking default
+    # statements after the switch are the fall-out of a breaking (or absent) default and of every arm that only breaks
+    after = []
+    for blk in facts.fn_nodes(f):
+        if blk["k"] == "CompoundStmt" and any(x is sw for x in blk.get("c", [])):
+            kids = [x for x in blk["c"] if x is not None]
+            after = kids[[id(x) for x in kids].index(id(sw)) + 1:]
+    if after:
+        tail = outcome(f, after)
+        if tail != ("none",):
+            if default is None or default == ("none",):
+                default = tail
+            for v in list(table):
+                if table[v] == ("none",):
+                    table[v] = tail
     return table, default, sw
 
 
